@@ -11,7 +11,8 @@ open Proto Weights
       row   <sizes> <W> <Y row>                          -> a_jk row group slice by group slice (running index), the same with sliceBounds, and W*Y
       wsob  <opa> <ns> <zb> <N> <nSel> <ak> <s values> <src idx> <evt idx> <b per selected event> <r2 values | ->
             -> none | <log Λ> <sum |terms|>      SourceWeighted(SigOverBkg [x ratio]) on the flat values array
-      hist  <opa> <K> <W0> <J> {<N_j> <E_j> <R_j flat>} {A <Y flat> | F | E <ns> | W <weights> | C}
+      hist  <opa> <K> <W0> <fac per source> <J> {<N_j> <E_j> <R_j flat>} {A <Y base flat> | F | E <ns> | W <weights> <order> | C}
+            (the yield of position k is base_jk * fac[source standing at k])
             -> the values of the E steps: the state machine `lowRun` (cached W, a_jk, f_j) on low-level operations
       bld   <J> {<builder ids of group g>}     -> error | code:<J x G builder ids, x = unfilled> spec:<J x G builder ids>
       multi <opa> <ns> <K> <W> <Y flat> <J> {<N_j> <E_j> <R_j flat (K x E_j)>}   -> <log Λ> <f list> <sum |terms|>
@@ -49,7 +50,7 @@ def parseOps (K : Nat) : List String → List (LowOp (List (List Float)) Float)
       .calcA (rowsOf K (Yf.length / K) Yf) :: parseOps K rest
   | "F" :: rest => .calcF :: parseOps K rest
   | "E" :: ns :: rest => .evalBody (pF ns) :: parseOps K rest
-  | "W" :: w :: rest => .setWeights (pList pF w) :: parseOps K rest
+  | "W" :: w :: o :: rest => .setSources (pList pF w) (pList pN o) :: parseOps K rest
   | "C" :: rest => .changeShgMgr :: parseOps K rest
   | _ => []
 
@@ -110,14 +111,20 @@ def answer (line : String) : String :=
           let fo : Option Nat → String := fun o => match o with | some b => toString b | none => "x"
           s!"code:{fListD fo c.flatten} spec:{fListD toString sp.flatten}"
       | _, _ => "error"
-  | "hist" :: opa :: k :: w0 :: j :: rest =>
+  | "hist" :: opa :: k :: w0 :: fac :: j :: rest =>
       let K := pN k
       let J := pN j
       let ds := parseDatasets K (rest.take (3 * J))
       let ops := parseOps K (rest.drop (3 * J))
       let W0 := pList pF w0
-      let st : SvcState Float := { W := W0, Wc := W0, a := [], f := [] }
-      fListD fF (lowRun (pF opa) (fun Y => Y) ds st ops)
+      let facs := pList pF fac
+      let Yof : List (List Float) → List Nat → List (List Float) := fun Y ord =>
+        Y.map (fun row => List.zipWith (· * ·) row (ord.map (fun k => facs.getD k 0)))
+      fListD fF (lowRun (pF opa) Yof ds (initState W0 (List.range K)) ops)
+  | ["mchk", na, nd] =>
+      match evalWithChecked (1e-3 : Float) 0 (List.replicate (pN na) []) (List.replicate (pN nd) { N := 1, nSel := 0, Rk := [] }) with
+      | some _ => "ok"
+      | none => "error"
   | "multi" :: opa :: ns :: k :: w :: y :: _j :: rest =>
       let K := pN k
       let W := pList pF w
